@@ -179,10 +179,43 @@ def provider_sequences():
     return cases, bad
 
 
+def full_queue():
+    """A worker that does not take requests any more (queue full): enqueue_operation must tell the caller within a
+    bounded time (queue.Full) - neither drop the request silently nor block the request thread for ever."""
+    import queue
+    from sdc11073.provider import sco
+    worker = sco._OperationsWorker(None, None, None, 'verif')     # never started: nothing drains the queue
+    for i in range(worker._operations_queue.maxsize):
+        worker._operations_queue.put_nowait((i, None, None, None))
+    box = {}
+
+    def call():
+        try:
+            worker.enqueue_operation(types.SimpleNamespace(handle='op'), None, None, 99)
+            box['r'] = 'returned'
+        except queue.Full:
+            box['r'] = 'full'
+        except Exception as ex:  # noqa: BLE001
+            box['r'] = repr(ex)
+    t = threading.Thread(target=call, daemon=True)
+    t.start()
+    t.join(4)
+    bad = []
+    queued = [x for x in list(worker._operations_queue.queue) if x[0] == 99]
+    if t.is_alive():
+        bad.append({'key': 'enqueue-blocks-without-bound', 'detail': 'enqueue_operation on a full queue did not return within 4 s (request thread hangs)'})
+    elif box.get('r') == 'returned' and not queued:
+        bad.append({'key': 'request-dropped-silently', 'detail': 'enqueue_operation returned normally on a full queue but the request is not queued: the caller answers Wait and the operation is never processed'})
+    elif box.get('r') not in ('full', 'returned'):
+        bad.append({'key': 'unexpected-exception', 'detail': f'enqueue_operation on a full queue raised {box.get("r")}'})
+    return 1, bad
+
+
 if __name__ == '__main__':
     c = Collector()
     c.run('C09.consumer_all_orders', 'F', consumer_all_orders,
           bound='every serial order (response interleaved at each position) of the response and the 1-3 reports of a transaction, x 4 final states x direct/queued x foreign-transaction noise')
     c.run('C09.provider_transaction_ids', 'B', provider_transaction_ids, bound='8 threads x 2000 ids')
     c.run('C09.provider_sequences', 'B', provider_sequences, bound='direct/queued x handler returns Fin/Fail/FinMod or raises, on the real registry and worker thread')
+    c.run('C09.full_queue', 'B', full_queue, bound='one request against a full worker queue (10 entries), 4 s limit')
     c.emit()
